@@ -1,14 +1,23 @@
 """C16 — Readers resynchronise after noise with bounded loss."""
-from props import hdlc_model as M, dlde_model as DM
+from props import hdlc_model as M, dlde_model as DM, ideal_hdlc as ID, clean_hdlc as CL, resync_hdlc as RS
 from pyvc import run
 
 KEEP = ("right after a flag", "no pending escape", "unstuff(raw)", "octets == raw", "2047", "frame_inv", "hunt mode", "collected octets", "pre:", "inv-entry", "dec#", "consumes at least", "left unconsumed")
 def build(repo, tier, seed):
-    tasks = M.hdlc_tasks(repo, None, True) + [("p1reader", DM.group_p1reader, (repo,))] + [(f"segment lemma {cfg}", M.group_segment_lemma, (repo, cfg)) for cfg in M.CONFIGS if cfg[0]]
+    tasks = M.hdlc_tasks(repo, None, True) + [("p1reader", DM.group_p1reader, (repo,))] + [(f"segment lemma {cfg}", M.group_segment_lemma, (repo, cfg)) for cfg in M.CONFIGS if cfg[0]] + \
+            [(f"ideal receiver {cfg}", ID.group_ideal, (repo, cfg)) for cfg in M.CONFIGS] + [(f"clean stream {cfg}", CL.group_clean_stream, (repo, cfg)) for cfg in M.CONFIGS] + \
+            [(f"resync lemma {cfg}", RS.group_resync, (repo, cfg)) for cfg in M.CONFIGS]
     r = M.groups_result(tasks, select=None)
     r.functions = sorted(set(M.READER_FUNCS) | set(DM.P1_FUNCS))
     r.level = "other"
-    r.explanation = ("C16: state claims proved deductively for every reachable state (they are clauses of the reader invariants, which hold after arbitrary input): "
+    r.explanation = ("C16, HDLC part (deductive, four configurations): read()'s contract against the ideal receiver (after ANY input the reader's state is the ideal receiver's at the stream position: C06's groups, "
+                     "included here) and its clean-stream contract (from 'the reader holds what the ideal un-stuffer holds' on, every well-formed frame is returned once, in order: C02's groups, included here) are connected by "
+                     "the resync lemma over the ideal receiver (props/resync_hdlc.py, pure spec-level obligations): whatever the receiver holds at the first flag F0 of the clean part, an invariant RESYNC (hunting, or in a frame "
+                     "whose octets so far equal the ideal frame's octet by octet; without stuffing also: inside a frame of its own with at least p-F0 octets) holds at F0+1, is preserved by every octet, and - with stuffing - at "
+                     "the first closing flag leaves a new empty frame, which is the clean-stream contract's STATE: every frame after the first is delivered; without stuffing the own frame cannot survive 2048 octets, "
+                     "tracking at a closing flag completes the frame with the octets that were sent and leaves STATE, hunting at a delimiter flag starts tracking: every flag-free frame whose opening flag stands 2048 octets "
+                     "or more after the noise is delivered. The inductions over the positions are the usual rule applied to base / step obligations. P1 part: "
+                     "state claims proved deductively for every reachable state (they are clauses of the reader invariants, which hold after arbitrary input): "
                      "HDLC: after a flag / frame start / discard no escape is pending, octets == unstuff(raw) restarts from the flag, frames cannot exceed 2047 octets (so a non-stuffing reader "
                      "leaves a bogus frame after at most 2047 octets); P1: in hunt mode no collected octets are kept, so nothing stale is prefixed to the next readout. "
                      "The composition 'every subsequent clean message except possibly the first is delivered' is a whole-history lemma over these contracts and is run as a BOUNDED stand-in "
